@@ -23,7 +23,7 @@ RULE = (
     "factors applied. Oracle: for every listed element total/H-total equals the reference ratio exactly; the "
     "electron abundance is unchanged; no division by zero / NaN; both back-ends give the same matrix and factors; "
     "when the ratios already match and every element of every species is a listed element the result is the "
-    "identity. Non-trivial = >=2 elements coupled through a molecule and ratios that differ from the current ones."
+    "identity. A quarter of the networks is steered to an element without atomic species whose hydride shares its mass number with a species of listed elements. Non-trivial = >=2 elements coupled through a molecule and ratios that differ from the current ones."
 )
 ASSUMPTIONS = [
     "SetReferenceAbund is emulated from its documented semantics (ab_ref[i] = ref[i]/ref[H]); the compiled path is the thorough-tier cross-check",
@@ -49,9 +49,34 @@ def _case(draw):
             pool.append(sp)
 
     complete = draw(st.sampled_from([True, True, True, False]))
+    # steered class "mass-collision": an element X without atomic species (only in a hydride X H_n) next to a species of listed
+    # elements only that has the same mass number (MgH+ / C2H, SiH / N2H, HD / H3 ...): anything keyed by mass number mixes them up
+    collision = None
+    if draw(st.integers(0, 3)) == 0:
+        complete = False
+        x = draw(st.sampled_from(elements[1:]))
+        nh = draw(st.integers(1, 3))
+        A = M.MASSNUM[x] + nh
+        others = [e for e in elements[1:] if e != x and M.MASSNUM[e] <= A]
+        partner = None
+        if others:
+            y = draw(st.sampled_from(others))
+            k = draw(st.integers(1, A // M.MASSNUM[y]))
+            m = A - k * M.MASSNUM[y]
+            if m <= 12:
+                partner = [[y, k]] + ([["H", m]] if m else [])
+        elif A <= 12:
+            partner = [["H", A]]
+        if partner:
+            collision = (x, M._mol([[x, 1], ["H", nh]], q=draw(st.sampled_from([0, 1]))), M._mol(partner, q=draw(st.sampled_from([0, 0, 1]))))
     for e in elements:
-        if complete or e == "H" or draw(st.booleans()):
+        if collision and e == collision[0]:
+            continue
+        if complete or e == "H" or (collision and e == collision[2]["t"][0][0]) or draw(st.booleans()):
             add(M._mol([[e, 1]]))
+    if collision:
+        add(collision[1])
+        add(collision[2])
     for _ in range(draw(st.integers(2, 7))):
         add(draw(M.gas_molecule(elements, max_tokens=3, allow_label=True, charges=(0, 0, 1, -1, 2))))
     if draw(st.booleans()):
@@ -74,7 +99,7 @@ def _case(draw):
     ref = [draw(frac) for _ in range(n if opt == 1 else len(elements) + 1)]
     return {"pool": pool, "reactions": reacs, "required": [i for i in range(n) if i not in used], "eletter": draw(st.sampled_from(["e-", "E"])),
             "cooling": [], "heating": [], "ode_mod": [], "ab": [str(x) for x in ab], "opt": opt, "ref": [str(x) for x in ref], "complete": complete,
-            "compile": draw(st.integers(0, 15)) == 0, "route": draw(st.sampled_from(["api", "api", "grow-from-file"]))}
+            "collision": bool(collision), "compile": draw(st.integers(0, 15)) == 0, "route": draw(st.sampled_from(["api", "api", "grow-from-file"]))}
 
 
 def strategy(tier):
@@ -181,6 +206,8 @@ def check_case(case, tier):
     if any(sp.get("s") for sp in pool):
         labels.append("ice")
     labels.append("complete-elements" if case.get("complete") else "incomplete-elements")
+    if case.get("collision"):
+        labels.append("mass-collision-with-unlisted-element")
     labels.append(f"opt-{case['opt']}")
     ab = [Fraction(x) for x in case["ab"]]
     with N.Scratch() as d:
